@@ -70,8 +70,8 @@ def _brief(xs):
 class C08Stream(R.ScenarioStream):
     name = "window"
     coq_header = R.C08_HEADER
-    n_quick = 500
-    n_thorough = 10000
+    n_quick = 1000
+    n_thorough = 15000
 
     def gen(self, rng, tier):
         yield from R.c08_boundary_cases()
@@ -101,7 +101,6 @@ class C08Stream(R.ScenarioStream):
         if case["max_len"] < 1024:
             out.append("small_max_len")
         an, ad = case["age"]
-        R0 = R._div_round_he(p * an, ad)
         for sid in range(len(case["series"])):
             h = R.series_history(case, log, sid)
             ts_valid = [ev[1][0] for ev in h if ev[0] == "recv" and ev[1][2] == 0]
@@ -145,6 +144,10 @@ class C08Stream(R.ScenarioStream):
 def streams():
     return [C08Stream()]
 
+
+TRUSTED = ["async_solipsism 0.7 virtual event loop + time_machine slaved to it",
+           "the scenario driver of tools/harness/resampler.py (scripted sources, recording resampling function, log -> per-source history)",
+           "read-only peek at _ResamplingHelper._buffer.maxlen (capacity is not exposed publicly)"]
 
 ASSUMPTIONS = [
     "the estimated input sampling period and the resized buffer length are float computations: they enter the model as "
